@@ -4,15 +4,22 @@ import common, fns, sweeps, crops
 from common import canon
 
 PROP = 'C09'
-LEAN_MODULES = ['XyzProofs.Props.C09', 'XyzProofs.Refine.Reap', 'XyzProofs.Props.C12Skel']
+LEAN_MODULES = ['XyzProofs.Props.C09', 'XyzProofs.Refine.Reap', 'XyzProofs.Props.C12Skel',
+                'XyzProofs.Refine.Reaper', 'XyzProofs.Props.C09Reaper']
 THEOREMS = ['Crop.c09_stream_partial', 'Crop.c09_unshuffle_positions', 'Crop.c09_partial_linear', 'Crop.c09_refused',
             'Crop.c09_no_delete_by_default', 'Crop.c09_explicit_clean_up', 'Crop.c09_needs_one_finished', 'Crop.reapRaw_dir',
             'Crop.partialStream_eq_tagged', 'Crop.c09_partial_positions', 'Crop.nested_of_linear', 'Crop.c09_partial_exact',
             'Refine.calcCleanUp_refines', 'Refine.checkReady_refines', 'Refine.reaperUseDefault_spec',
-            'Skel.reapCombos_deletes_iff', 'Skel.reapHarvest_deletes_iff', 'Skel.reapSamples_deletes_iff']
+            'Skel.reapCombos_deletes_iff', 'Skel.reapHarvest_deletes_iff', 'Skel.reapSamples_deletes_iff',
+            # the Reaper translated from the source (anchors_reaper.py): hand-written stream = translated Reaper
+            'Reaper.reaperFiles_eq', 'Reaper.reapStep_refines', 'Reaper.reapStream_refines', 'Reaper.session_eq',
+            'Reaper.session_refines', 'Reaper.reaper_kth_call', 'Reaper.reaper_exit_iff', 'Reaper.reaperLoad_missing_default',
+            'Reaper.reaperLoadFn_present', 'Reaper.reaperStream_default_total', 'Reaper.reapCombos_reaper_args',
+            'Crop.c09_stream_partial_src', 'Crop.c09_session_partial_src', 'Crop.c09_call_partial_src']
 ANCHORS = ['isReady', 'cleanUpDefault', 'sowerGetsExtra', 'sowerFlush', 'nbFromBs', 'capNb', 'bsOfNb', 'remOfNb',
            'calcCleanUp', 'checkReady', 'reaperUseDefault',
-           'reapCombosSk', 'reapCombosToDsSk', 'reapRunnerSk', 'reapHarvestSk', 'reapSamplesSk']
+           'reapCombosSk', 'reapCombosToDsSk', 'reapRunnerSk', 'reapHarvestSk', 'reapSamplesSk',
+           'reaperFiles', 'reaperLoad', 'reaperWaitToLoad', 'reaperLoadFn', 'reaperCall', 'reaperExit', 'reapCombosReaper']
 RULE = ("for every crop configuration of a list of (N, batchsize | num_batches) with and without remainder (incl. a short "
         "last batch), x shuffle off/seed x result kind (number, array, bool, str, tuple, Dataset with int/bool data) x grid/case list: ALL non-empty "
         "proper subsets S of the batches (B<=5 quick, B<=7 thorough) are grown, then reap(allow_incomplete=True), directory "
